@@ -41,8 +41,10 @@ def swarm_feat(cfg, avoid=()):
     (`avoid`) are only enabled in a small stratum of runs so that they do not mask the rest of the space."""
     f = _swarm_feat(cfg)
     known_stratum = cfg.random() < 0.06
-    f["avoid"] = [] if known_stratum else list(avoid)
-    f["known_stratum"] = known_stratum and bool(avoid)
+    strict = [a[1:] for a in avoid if a.startswith("!")]
+    own = [a for a in avoid if not a.startswith("!")]
+    f["avoid"] = strict + ([] if known_stratum else own)
+    f["known_stratum"] = known_stratum and bool(own)
     for a in f["avoid"]:
         if a.startswith("varform:"):
             f["varforms"] = [x for x in f["varforms"] if x != a.split(":")[1]]
@@ -151,8 +153,30 @@ def gen_program(rng, feat):
                 f["body"].insert(rng.randrange(len(f["body"]) + 1), {"t": "var", "name": v, "form": form})
         if feat["ext"] and rng.random() < 0.3:
             f["body"].insert(rng.randrange(len(f["body"]) + 1), {"t": rng.choice(["ext", "extvar"])})
+    if feat.get("loads"):
+        _add_loads(prog, rng, feat)
     _fix_rt_refs(prog, rng, feat)
     return prog
+
+
+def _add_loads(prog, rng, feat):
+    """dds.load items at seeded placements: the loaded path may be produced earlier or later in the same
+    evaluation, by another entry point (an earlier evaluation), or by nothing at all."""
+    names = sorted(prog["funcs"])
+    paths = all_paths(prog)
+    nloads = rng.choice([1, 1, 2, 3])
+    for _ in range(nloads):
+        fn = rng.choice(names)
+        f = prog["funcs"][fn]
+        own = {f.get("path")} | {it["path"] for it in f["body"] if it["t"] == "keep"}
+        cand = [p for p in paths if p not in own]
+        r = rng.random()
+        if r < feat.get("p_load_never", 0.1) or not cand:
+            p = "/never/produced"
+        else:
+            p = rng.choice(cand)
+        pos = rng.randrange(len(f["body"]) + 1)
+        f["body"].insert(pos, {"t": "load", "path": p})
 
 
 def _lit(rng, feat):
